@@ -42,11 +42,16 @@ RULE = ('one case = one (model, expression forms, nest structure, parameter assi
         'probabilities differ from logit); ordered models: every (K, thresholds) point. distinct = distinct such keys.')
 ASSUMPTIONS = [
     'continuous domains (utilities, nest parameters, scale, alpha, thresholds) are covered at the grid points of the '
-    'per-seed alphabets only (5 alphabets; utilities in [-3, 3] plus shifts up to |12|)',
-    'J <= 3 (quick) / J <= 4 (thorough); CNL with 2 nests (J <= 3 quick, J <= 4 thorough) and 3 nests (J <= 3, thorough: all '
-    'parameter assignments; quick J=2 only); each alternative in at most two nests',
-    'the reference (vf/ref_mev.py) is the trusted base: textbook nested / generalised nested logit closed forms, '
-    'cross-checked in every task against forward-mode differentiation of its own G(y)',
+    'per-seed alphabets only (5 alphabets; utilities in [-3, 3.2] plus common shifts up to |12|)',
+    'J <= 3 (quick) / J <= 4 (thorough); nested: every structure x the full product of the 3-value parameter grid; '
+    'CNL: each alternative in no nest, one nest, or two nests with a split from a 3-value grid; 2 nests (J <= 3 quick, '
+    'J <= 4 thorough), 3 nests (J = 2 quick, J <= 3 thorough); full parameter product for the small families, 3 (2 nests) '
+    'or 6 (3 nests) assignments for CNL J=3 in quick, 3 nests x J=3 and 2 nests x J=4',
+    'expression forms other than data columns (numeric constants, fixed / free Betas, constant or None availabilities, '
+    'constant choice, Beta / Numeric nest and scale parameters, alpha as Beta) are crossed with every J=2 structure and '
+    '(thorough) every J=3 nested structure; in quick they rotate over the J=3 structures',
+    'the reference (vf/ref_mev.py) is the trusted base: textbook nested / generalised nested logit closed forms with '
+    'alpha^(mu_m/mu), cross-checked in every task against forward-mode differentiation of its own G(y)',
     'comparison tolerance: relative 1e-10 + absolute 1e-12 (shift invariance: relative 1e-9)',
     'ordered probit: the main grid keeps value - threshold < 6 because the external engine normal CDF is wrong above 6 '
     '(separate tail task, known finding); closed forms in that tail are not compared',
@@ -394,25 +399,21 @@ def nontrivial_group(spec, pat):
 
 
 def shape_of(spec):
-    """Normalised structure class for finding keys (coarse on purpose)."""
+    """Normalised structure class for finding keys (coarse on purpose: one defect -> a handful of keys)."""
     kind = spec['kind']
     if kind == 'logit':
         return 'logit'
     s = spec['gen'] if kind == 'usermev' else spec
-    parts = ['alone=' + ('yes' if s['alone'] else 'no')]
-    sizes = [len(n) for n in s['nests']]
-    parts.append('nests=' + ('none' if not sizes else ('multi' if max(sizes) > 1 else 'singletons')))
-    if (s is spec and kind == 'cnl') or (s is not spec and s['type'] == 'cnl'):
-        cross = any(0.0 < a < 1.0 for n in s['nests'] for a in n.values())
-        parts.append('cross=' + ('yes' if cross else 'no'))
-    return ','.join(parts)
+    tag = 'alone=' + ('yes' if s['alone'] else 'no')
+    if kind == 'usermev':
+        tag = 'G=' + s['type'] + ',' + tag
+    return tag
 
 
 def forms_tag(spec):
     f = dict(default_forms(), **spec.get('forms', {}))
     d = default_forms()
-    diff = [f'{k}={v}' for k, v in sorted(f.items()) if d[k] != v]
-    return 'forms:' + (','.join(diff) if diff else 'default')
+    return 'forms=' + ('data-columns' if all(f[k] == d[k] for k in d) else 'constants-or-betas')
 
 
 # --------------------------------------------------------------------------- oracle
@@ -428,8 +429,7 @@ def check_values(spec, table, vals, ref, rec, log_model=False, collect=None):
 
     def emit(clause, g, detail, expected, observed):
         grp = table.describe_group(g)
-        avail_tag = 'avail=' + ('full' if all(grp['avail']) else 'partial')
-        key = f'{ID}|{clause}|{model}|{shape_of(spec)}|{avail_tag}|{forms_tag(spec)}'
+        key = f'{ID}|{clause}|{model}|{shape_of(spec)}|{forms_tag(spec)}'
         case = dict(part='spec', spec=spec, group=grp, base=table.describe_group(table.base_of[g]))
         rec.violation(key, f'{clause}: model {model} {detail} at u={grp["u"]} avail={grp["avail"]} shift={grp["shift"]} '
                            f'(alts {alts}, structure alone={spec.get("alone")} nests={spec.get("nests")} mus={spec.get("mus")} '
@@ -561,10 +561,11 @@ def _chunks(seq, n):
 
 
 def cnl_config(tier):
-    """(J, M, number of alpha splits, parameter assignments 'full'|'reduced', structures per task)"""
+    """(J, M, number of alpha splits, parameter assignments 'full'|'reduced', structures per task, scales 'one'|'both')"""
     if tier == 'quick':
-        return [(2, 2, 3, 'full', 10), (2, 3, 3, 'reduced', 12), (3, 2, 3, 'reduced', 12)]
-    return [(2, 2, 3, 'full', 10), (2, 3, 3, 'full', 6), (3, 2, 3, 'full', 6), (3, 3, 3, 'reduced', 12), (4, 2, 3, 'reduced', 6)]
+        return [(2, 2, 3, 'full', 10, 'one'), (2, 3, 3, 'reduced', 12, 'one'), (3, 2, 3, 'reduced', 12, 'one')]
+    return [(2, 2, 3, 'full', 10, 'both'), (2, 3, 3, 'full', 3, 'both'), (3, 2, 3, 'full', 4, 'both'),
+            (3, 3, 3, 'reduced', 8, 'one'), (4, 2, 3, 'reduced', 6, 'one')]
 
 
 def tasks(tier, seed):
@@ -580,24 +581,30 @@ def tasks(tier, seed):
         structs = R.nested_structures(alph['labels'][:J])
         per = {2: 5, 3: 3, 4: 1}[J]
         for ch in _chunks(range(len(structs)), per):
-            t.append(dict(part='nested', J=J, structs=ch, seed=seed, tier=tier))
+            if J == 4 and len(structs[ch[0]][1]) >= 3:
+                for first in alph['mus']:
+                    t.append(dict(part='nested', J=J, structs=ch, first=first, seed=seed, tier=tier))
+            else:
+                t.append(dict(part='nested', J=J, structs=ch, seed=seed, tier=tier))
     # (C) forms sweep (constants / Betas / None availabilities / constant choice / parameter forms), J <= 3
     for J in (2, 3):
         structs = R.nested_structures(alph['labels'][:J])
         for ch in _chunks(range(len(structs)), 2 if (J == 2 or not quick) else 3):
             t.append(dict(part='nested_forms', J=J, structs=ch, seed=seed, tier=tier))
     # (D) cnl
-    for J, M, ns, pa, per in cnl_config(tier):
+    for J, M, ns, pa, per, sc in cnl_config(tier):
         n = len(R.cnl_structures(alph['labels'][:J], M, alph['splits'][:ns]))
         for ch in _chunks(range(n), per):
-            t.append(dict(part='cnl', J=J, M=M, ns=ns, pa=pa, structs=ch, seed=seed, tier=tier))
+            t.append(dict(part='cnl', J=J, M=M, ns=ns, pa=pa, sc=sc, structs=ch, seed=seed, tier=tier))
     for J, M in ([(2, 2)] if quick else [(2, 2), (3, 2)]):
         n = len(R.cnl_structures(alph['labels'][:J], M, alph['splits']))
         for ch in _chunks(range(n), 10):
             t.append(dict(part='cnl_forms', J=J, M=M, structs=ch, seed=seed, tier=tier))
     # (E) user-supplied MEV terms
     for J in range(2, Jmax + 1):
-        t.append(dict(part='usermev', J=J, seed=seed, tier=tier))
+        ng = len(usermev_generators(alph, J))
+        for ch in _chunks(range(ng), 12):
+            t.append(dict(part='usermev', J=J, gens=ch, seed=seed, tier=tier))
     # (F) ordered
     for K in (2, 3, 4):
         for model in ('ordered_logit', 'ordered_probit'):
@@ -734,6 +741,8 @@ def _part_nested(task, alph, rec):
     for si in task['structs']:
         alone, nests = structs[si]
         for mus in itertools.product(alph['mus'], repeat=len(nests)):
+            if task.get('first') is not None and mus[0] != task['first']:
+                continue
             base = dict(kind='nested', alts=alts, alone=list(alone), nests=[list(n) for n in nests], mus=list(mus))
             for mu in [None] + alph['scale'][1:]:
                 selfcheck_reference(dict(base, mu=mu), table, rec)
@@ -801,7 +810,7 @@ def _part_cnl(task, alph, rec):
             if (si + mi) % 5 == 0:
                 for mu in [None] + alph['scale'][1:]:
                     selfcheck_reference(dict(base, mu=mu), table, rec)
-            run_family(base, _cnl_models(alph, tier), table, rec)
+            run_family(base, _cnl_models(alph, 'quick' if task['sc'] == 'one' else 'thorough'), table, rec)
     rec.sample(dict(part='cnl', alts=alts, M=M, first=structs[task['structs'][0]], rows=len(table.groups) * J))
 
 
@@ -843,6 +852,8 @@ def _part_usermev(task, alph, rec):
     gens = usermev_generators(alph, J)
     n_u = 3 if J <= 3 else 2
     for gi, (gen, gmu) in enumerate(gens):
+        if gi not in task['gens']:
+            continue
         for af in (('var', 'none') if gi % 3 == 0 else ('var',)):
             table = std_table(alph, J, n_u, task['tier'], aform=af)
             spec = dict(kind='usermev', alts=alts, gen=gen, gmu=gmu, forms=dict(av=af))
